@@ -36,7 +36,32 @@ package scen
 //                      iff the WAN table was non-empty at the call, else on the
 //                      LAN sender; none on the other one.
 //   write-no-traffic   ... and if the chosen side's table was non-empty, that
-//                      side did see a dial or an RPC for the operation.
+//                      side did see a dial or an RPC for the operation (not for
+//                      Provide without announce, which is local by contract).
+//   write-store        the other observable effect of "the write was sent to
+//                      that inner DHT": the LOCAL record. Each inner DHT has its
+//                      own datastore (simds, handed in through dual.WanDHTOption /
+//                      dual.LanDHTOption(dht.Datastore)), so the two sides'
+//                      stores are told apart. After Provide / PutValue returned:
+//                      (a) nothing was written to the datastore of the side the
+//                      write was NOT routed to, and that side's ProviderStore()
+//                      does not list the node as provider of the key;
+//                      (b) the routed side holds the local record: its
+//                      ProviderStore() lists the node for the key (Provide), its
+//                      datastore received an entry containing the record's value
+//                      (PutValue). Judged the same way for all four combinations
+//                      of table emptiness; with both tables empty it is the ONLY
+//                      observable (the lookup fails at once on either side, no
+//                      traffic, same error). Soundness of (b): IpfsDHT.PutValue
+//                      returns before its local store only for an invalid value,
+//                      a datastore error or a better record already stored under
+//                      the key - none is generated (valid value, one fresh key
+//                      per operation, fault-free datastore, context not
+//                      cancelled before the call returns); IpfsDHT.Provide adds
+//                      the node to its provider store before anything else (also
+//                      without announce). Nothing else writes: client mode (no
+//                      inbound handlers), one operation at a time, the stores'
+//                      background GC only deletes.
 //   getvalue-wan       GetValue: a valid record was delivered to the WAN lookup
 //                      => returns nil error and one of the valid values
 //                      delivered on the WAN side (which one is C04's business).
@@ -84,6 +109,7 @@ package scen
 // fixed before that point).
 
 import (
+	"bytes"
 	"context"
 	"fmt"
 	"sort"
@@ -103,6 +129,7 @@ import (
 	mh "github.com/multiformats/go-multihash"
 
 	"verif/sim"
+	"verif/simds"
 	"verif/simhost"
 	"verif/simnet"
 )
@@ -119,6 +146,8 @@ var c15Faults = []string{
 	"probe_fp_provider_both_sides", "probe_fp_count_reached", "probe_fp_count_across_both", "probe_fp_findall",
 	"probe_wan_store_dropped_nonpublic", "probe_wan_store_kept_public",
 	"probe_wan_advertise_filtered", "probe_wan_advertise_nothing_public", "probe_lan_advertise_filtered",
+	"probe_store_checked_wan_only", "probe_store_checked_lan_only", "probe_store_checked_both_nonempty", "probe_store_checked_both_empty",
+	"probe_store_putvalue_checked", "probe_store_provide_checked", "probe_provide_local_only",
 }
 
 func init() {
@@ -306,8 +335,11 @@ type c15Op struct {
 	strKey string
 	val    []byte
 	count  int
+	// provide: announce (false = "just kept in the local accounting")
+	announce bool
 
 	op              *Op
+	dsFrom          map[string]int // side -> length of that side's datastore log at the call
 	cancel          context.CancelFunc
 	wanFrom         int
 	lanFrom         int
@@ -330,6 +362,7 @@ type c15World struct {
 	host   *simhost.Host
 	d      *dual.DHT
 	snd    map[string]*simnet.Sender
+	ds     map[string]*simds.DS // one datastore per inner DHT
 	k      map[string]int
 	peers  map[peer.ID]*c15Peer
 	order  []*c15Peer // canonical order
@@ -501,6 +534,9 @@ func c15Build(s *sim.Sim, faulty bool, focus string) *c15World {
 		w.snd[side] = snd
 		return snd
 	}
+	// one datastore per inner DHT (what the default configuration gives them as
+	// well: each dht.New creates its own in-memory map), here observable
+	w.ds = map[string]*simds.DS{c15W: simds.New(s, "ds-"+c15W), c15L: simds.New(s, "ds-"+c15L)}
 	d, err := dual.New(w.host,
 		// dual.New applies the caller's options after its own, and ProtocolPrefix
 		// overwrites what ProtocolExtension("/lan") appended: a prefix passed as
@@ -508,8 +544,8 @@ func c15Build(s *sim.Sim, faulty bool, focus string) *c15World {
 		// the prefix goes to each side, with the extension repeated for the LAN.
 		dual.DHTOption(dht.Mode(dht.ModeClient), dht.DisableAutoRefresh(),
 			dht.NamespacedValidator("r", rankValidator{}), dht.MaxRecordAge(100000*time.Hour), dht.WithCustomMessageSender(builder)),
-		dual.WanDHTOption(dht.ProtocolPrefix("/sim"), dht.BucketSize(w.k[c15W]), dht.Concurrency(alphaW), dht.Resiliency(betaW)),
-		dual.LanDHTOption(dht.ProtocolPrefix("/sim"), dht.ProtocolExtension(dual.LanExtension), dht.BucketSize(w.k[c15L]), dht.Concurrency(alphaL), dht.Resiliency(betaL)),
+		dual.WanDHTOption(dht.ProtocolPrefix("/sim"), dht.BucketSize(w.k[c15W]), dht.Concurrency(alphaW), dht.Resiliency(betaW), dht.Datastore(w.ds[c15W])),
+		dual.LanDHTOption(dht.ProtocolPrefix("/sim"), dht.ProtocolExtension(dual.LanExtension), dht.BucketSize(w.k[c15L]), dht.Concurrency(alphaL), dht.Resiliency(betaL), dht.Datastore(w.ds[c15L])),
 	)
 	if err != nil {
 		panic(err)
@@ -575,7 +611,7 @@ func c15Build(s *sim.Sim, faulty bool, focus string) *c15World {
 		w.ops = append(w.ops, &c15Op{kind: "findprovs"})
 	}
 	for i, o := range w.ops {
-		o.idx, o.tag = i, fmt.Sprintf("o%d", i)
+		o.idx, o.tag, o.announce = i, fmt.Sprintf("o%d", i), true
 		switch o.kind {
 		case "provide", "findprovs":
 			sum, err := mh.Sum([]byte(fmt.Sprintf("c15-content-%d-%d", useed, i)), mh.SHA2_256, -1)
@@ -584,6 +620,9 @@ func c15Build(s *sim.Sim, faulty bool, focus string) *c15World {
 			}
 			o.cid = cid.NewCidV1(cid.Raw, sum)
 			o.wire = string(sum)
+			if o.kind == "provide" && s.Chance("provide-local-only", 1, 4) {
+				o.announce = false
+			}
 		case "putvalue", "getvalue":
 			o.strKey = fmt.Sprintf("/r/c15-%d-%d", useed, i)
 			o.wire = o.strKey
@@ -1053,7 +1092,7 @@ func (w *c15World) start(o *c15Op) {
 	o.op = w.cl.Go(s, o.kind, func() (any, error) {
 		switch o.kind {
 		case "provide":
-			return nil, d.Provide(ctx, o.cid, true)
+			return nil, d.Provide(ctx, o.cid, o.announce)
 		case "putvalue":
 			return nil, d.PutValue(ctx, o.strKey, o.val)
 		case "getvalue":
@@ -1091,6 +1130,7 @@ func (w *c15World) runOp(o *c15Op) bool {
 		s.Tracef("target reconnects")
 	}
 	o.wanFrom, o.lanFrom, o.dialFrom = len(w.snd[c15W].Snapshot()), len(w.snd[c15L].Snapshot()), len(w.host.DialLog)
+	o.dsFrom = map[string]int{c15W: w.ds[c15W].LogLen(), c15L: w.ds[c15L].LogLen()}
 	o.startStep = s.Steps
 	o.tConnPrev = w.connected(w.t.p.ID)
 	s.Tracef("op %s %s wanRT=%d lanRT=%d", o.tag, o.kind, len(o.wanRT), len(o.lanRT))
@@ -1196,7 +1236,14 @@ func (w *c15World) judgeWrite(o *c15Op) {
 	}
 	froms := map[string]int{c15W: o.wanFrom, c15L: o.lanFrom}
 	onWant, onOther := w.keyRPCs(want, froms[want], o.wire, -1), w.keyRPCs(other, froms[other], o.wire, -1)
-	s.Tracef("done %s %s err=%s want=%s rpcs=%d/%d", o.tag, o.kind, c15ErrText(o.op.Err), want, len(onWant), len(onOther))
+	kind := o.kind
+	if !o.announce {
+		kind = "provide(announce=false)"
+		s.Count("probe_provide_local_only")
+	}
+	putsWant, putsOther := w.dsPuts(want, o.dsFrom[want]), w.dsPuts(other, o.dsFrom[other])
+	s.Tracef("done %s %s err=%s want=%s rpcs=%d/%d puts=%d/%d", o.tag, kind, c15ErrText(o.op.Err), want, len(onWant), len(onOther), len(putsWant), len(putsOther))
+	w.judgeWriteStore(o, kind, want, other, putsWant, putsOther)
 	if len(onOther) > 0 {
 		r := w.canon(onOther)[0]
 		s.Violate("write-side", "%s with WAN table size %d at the call: %s for the key was sent to %s through the %s DHT (expected side: %s)",
@@ -1210,7 +1257,7 @@ func (w *c15World) judgeWrite(o *c15Op) {
 			dials++
 		}
 	}
-	if len(wantRT) > 0 && len(onWant) == 0 && dials == 0 {
+	if len(wantRT) > 0 && len(onWant) == 0 && dials == 0 && o.announce {
 		s.Violate("write-no-traffic", "%s with WAN table size %d, LAN table size %d at the call produced no dial and no RPC on the %s DHT (err=%v)",
 			o.kind, len(o.wanRT), len(o.lanRT), strings.ToUpper(want), o.op.Err)
 	}
@@ -1225,7 +1272,92 @@ func (w *c15World) judgeWrite(o *c15Op) {
 	if o.kind == "provide" && want == c15W && len(onWant) > 0 && !w.pal.admissibleOrPublic(w.selfAddrs) {
 		s.Count("probe_wan_advertise_nothing_public")
 	}
-	s.State("%s want=%s err=%v traffic=%v", o.kind, want, o.op.Err != nil, len(onWant) > 0)
+	s.State("%s want=%s err=%v traffic=%v lanRT=%v", kind, want, o.op.Err != nil, len(onWant) > 0, len(o.lanRT) > 0)
+}
+
+// dsPuts: the writes applied to one side's datastore since log position from.
+func (w *c15World) dsPuts(side string, from int) []*simds.Rec {
+	var out []*simds.Rec
+	for _, r := range w.ds[side].Log()[from:] {
+		if r.Op == "put" && r.Err == nil {
+			out = append(out, r)
+		}
+	}
+	return out
+}
+
+// selfProvides asks each inner DHT's provider store (public accessor) whether
+// it lists this node as a provider of the operation's key. The calls take
+// repository locks, so they run on a client goroutine.
+func (w *c15World) selfProvides(o *c15Op) (map[string]bool, bool) {
+	res := map[string]bool{}
+	op := w.cl.Go(w.s, "read-provider-stores", func() (any, error) {
+		for _, sd := range []struct {
+			side string
+			d    *dht.IpfsDHT
+		}{{c15W, w.d.WAN}, {c15L, w.d.LAN}} {
+			provs, err := sd.d.ProviderStore().GetProviders(context.Background(), o.cid.Hash())
+			if err != nil {
+				return nil, err
+			}
+			for _, pi := range provs {
+				if pi.ID == w.u.Self.ID {
+					res[sd.side] = true
+				}
+			}
+		}
+		return nil, nil
+	})
+	w.s.Quiesce()
+	return res, op.Done && op.Err == nil && op.Panic == ""
+}
+
+// judgeWriteStore is rule write-store (see the header).
+func (w *c15World) judgeWriteStore(o *c15Op, kind, want, other string, putsWant, putsOther []*simds.Rec) {
+	s := w.s
+	where := fmt.Sprintf("%s with WAN table size %d, LAN table size %d at the call (err=%s)", kind, len(o.wanRT), len(o.lanRT), c15ErrText(o.op.Err))
+	// (a) the side the write was not routed to
+	if len(putsOther) > 0 {
+		s.Violate("write-store", "%s: the %s DHT's datastore received %d write(s) (first key %q); the write belongs to the %s DHT, whose datastore received %d",
+			where, strings.ToUpper(other), len(putsOther), putsOther[0].Key, strings.ToUpper(want), len(putsWant))
+	}
+	switch o.kind {
+	case "provide":
+		has, ok := w.selfProvides(o)
+		if !ok {
+			s.Count("probe_store_read_failed")
+			break
+		}
+		s.Count("probe_store_provide_checked")
+		if has[other] {
+			s.Violate("write-store", "%s: the %s DHT's provider store lists the node as provider of the key; the write belongs to the %s DHT (listed there: %v)",
+				where, strings.ToUpper(other), strings.ToUpper(want), has[want])
+		}
+		if !has[want] {
+			// (b)
+			s.Violate("write-store", "%s: the %s DHT's provider store does not list the node as provider of the key after Provide returned", where, strings.ToUpper(want))
+		}
+	case "putvalue":
+		s.Count("probe_store_putvalue_checked")
+		stored := false
+		for _, r := range putsWant {
+			stored = stored || bytes.Contains(r.Val, o.val)
+		}
+		if !stored {
+			// (b)
+			s.Violate("write-store", "%s: the %s DHT's datastore received no entry containing the record's value (%d writes)", where, strings.ToUpper(want), len(putsWant))
+		}
+	}
+	switch {
+	case len(o.wanRT) > 0 && len(o.lanRT) > 0:
+		s.Count("probe_store_checked_both_nonempty")
+	case len(o.wanRT) > 0:
+		s.Count("probe_store_checked_wan_only")
+	case len(o.lanRT) > 0:
+		s.Count("probe_store_checked_lan_only")
+	default:
+		s.Count("probe_store_checked_both_empty")
+	}
 }
 
 func (p *c15Palette) admissibleOrPublic(addrs []ma.Multiaddr) bool {
